@@ -123,7 +123,8 @@ Section Data.
               b_fail b = FNone /\ In (OBlk (b_off b)) (store s) /\ In (OIdx (b_off b)) (store s);
     id_w : forall k wk, nth_error (ws s) k = Some wk -> wdata_ok (store s) wk;
     id_data : errored s = false -> DataOK s;
-    id_res : res_ok s }.
+    id_res : res_ok s;
+    id_pend : forall i, In i (pend s) -> In i items }.
 
   Lemma InvD_init : InvD (init c items).
   Proof.
@@ -135,6 +136,7 @@ Section Data.
       intros [|?] ? ?; discriminate.
     - unfold res_ok, ph; simpl. rewrite Hinner, Houter. simpl.
       repeat split; intros; try lia; try discriminate.
+    - auto.
   Qed.
 
   (* all workers done: everything was consumed *)
@@ -165,7 +167,7 @@ Section Data.
     pose proof (ic_main c s I) as Im. unfold prog, inner_prog, outer_prog in Im; simpl in Im.
     destruct (ic_flags c s I) as (Ie & Ica & Isc).
     destruct (ic_ws c s I) as [Iws1 Iws2].
-    destruct D as [Drc Dab Dw Dd (R1 & R2 & R3 & R4)].
+    destruct D as [Drc Dab Dw Dd (R1 & R2 & R3 & R4) Dp].
     unfold step_main in H. unfold ph in *.
     suffix_cases Im; rewrite Im in *; simpl in *.
     - (* MAdd *)
@@ -242,16 +244,18 @@ Section Data.
   Proof.
     intros I D H.
     destruct (ic_prod c s I) as (Ip1 & Ip2 & Ip3 & Ip4).
-    destruct D as [Drc Dab Dw Dd (R1 & R2 & R3 & R4)].
+    destruct D as [Drc Dab Dw Dd (R1 & R2 & R3 & R4) Dp].
     unfold step_prod in H. rewrite Hsel in H. simpl in H.
     destruct (pend s) as [|[b|] p] eqn:Ep.
     - destruct (closed s) eqn:Ec; [discriminate|]. inversion H; subst; clear H.
-      constructor; simpl; auto; try exact (conj R1 (conj R2 (conj R3 R4))).
+      constructor; simpl; auto; try exact (conj R1 (conj R2 (conj R3 R4)));
+        try solve [intros i Hi; rewrite ?Ep in Hi; simpl in Hi; try contradiction; apply Dp; rewrite ?Ep; simpl; auto].
       intros He. destruct (Dd He) as (D1 & D2 & D3 & D4). unfold DataOK; simpl. rewrite Ep in *.
       split; [|split; [|split]]; auto.
       intros k wk Hn Hx. destruct (D3 k wk Hn Hx) as (Hc & _). congruence.
     - destruct (List.length (buf s) <? c_ccap c); [|discriminate]. inversion H; subst; clear H.
-      constructor; simpl; auto; try exact (conj R1 (conj R2 (conj R3 R4))).
+      constructor; simpl; auto; try exact (conj R1 (conj R2 (conj R3 R4)));
+        try solve [intros i Hi; rewrite ?Ep in Hi; simpl in Hi; try contradiction; apply Dp; rewrite ?Ep; simpl; auto].
       intros He. destruct (Dd He) as (D1 & D2 & D3 & D4). unfold DataOK; simpl. rewrite Ep in *. simpl in *.
       split; [|split; [|split]].
       + rewrite D1. apply Permutation_app_head, Permutation_app_head.
@@ -264,12 +268,14 @@ Section Data.
         specialize (Ip1 Hc). discriminate. }
       destruct (sclosed s); [inversion H; subst; clear H|].
       + (* panic: excluded by InvC, but InvD is preserved anyway *)
-        constructor; simpl; auto; try exact (conj R1 (conj R2 (conj R3 R4))).
+        constructor; simpl; auto; try exact (conj R1 (conj R2 (conj R3 R4)));
+        try solve [intros i Hi; rewrite ?Ep in Hi; simpl in Hi; try contradiction; apply Dp; rewrite ?Ep; simpl; auto].
       + destruct (List.length (sbuf s) <? 1); [|discriminate]. inversion H; subst; clear H.
         assert (Hne : sbuf s ++ [1] <> []) by (destruct (sbuf s); discriminate).
         assert (He' : forall s0, sbuf s0 = sbuf s ++ [1] -> errored s0 = true).
         { intros s0 E. unfold errored. rewrite E. destruct (sbuf s); simpl; rewrite orb_true_r; auto. }
-        constructor; simpl; auto; try exact (conj R1 (conj R2 (conj R3 R4))).
+        constructor; simpl; auto; try exact (conj R1 (conj R2 (conj R3 R4)));
+        try solve [intros i Hi; rewrite ?Ep in Hi; simpl in Hi; try contradiction; apply Dp; rewrite ?Ep; simpl; auto].
         * intros He. rewrite He' in He by reflexivity. discriminate.
         * unfold res_ok, ph in *; simpl. split; [|split; [|split]]; auto; intros; try lia.
           rewrite He' in H0 by reflexivity. discriminate.
@@ -279,7 +285,7 @@ Section Data.
   Proof.
     intros I D H.
     destruct (ic_flags c s I) as (_ & Ica & _).
-    destruct D as [Drc Dab Dw Dd (R1 & R2 & R3 & R4)].
+    destruct D as [Drc Dab Dw Dd (R1 & R2 & R3 & R4) Dp].
     unfold step_prod_cancel in H.
     destruct (pend s) as [|[b|] p] eqn:Ep; try discriminate.
     rewrite Hsel in H. simpl in H. destruct (cancelled s) eqn:Ec; [|discriminate].
@@ -287,7 +293,8 @@ Section Data.
     assert (Hph : ph s <= 3) by (symmetry in Ica; apply Nat.leb_le in Ica; auto).
     assert (Hne : errored s = false -> False).
     { intros He0. destruct (all_consumed s I ltac:(lia) He0 (Dd He0)) as (_ & _ & _ & Hb). congruence. }
-    constructor; simpl; auto; try exact (conj R1 (conj R2 (conj R3 R4))).
+    constructor; simpl; auto; try exact (conj R1 (conj R2 (conj R3 R4)));
+        try solve [intros i Hi; rewrite ?Ep in Hi; simpl in Hi; try contradiction; apply Dp; rewrite ?Ep; simpl; auto].
     intros He. exfalso. apply Hne. exact He.
   Qed.
 
@@ -319,7 +326,7 @@ Section Data.
     intros I D Hk Hd Hst Hwd Ha Hr He Hwe Hdata.
     pose proof (worker_ph s k wk I Hk Hd) as Hph.
     pose proof (nth_error_lt _ _ _ Hk) as Hlt.
-    destruct D as [Drc Dab Dw Dd (R1 & R2 & R3 & R4)].
+    destruct D as [Drc Dab Dw Dd (R1 & R2 & R3 & R4) Dp].
     constructor; simpl.
     - exact Hr.
     - intros b0 Hin. destruct Ha as [-> | (cur & -> & Hf & Ho1 & Ho2)].
@@ -356,6 +363,140 @@ Section Data.
         destruct H4 as [-> | Hne]; [auto|congruence].
       + exact D4.
     - unfold res_ok, ph in *; simpl. split; [|split; [|split]]; intros; lia.
+    - exact Dp.
+  Qed.
+
+  Lemma fail_none cur : b_fail cur <> FBlk -> b_fail cur <> FIdx -> b_fail cur = FNone.
+  Proof. destruct (b_fail cur); congruence. Qed.
+
+  Ltac dwfin :=
+    simpl; auto;
+    try solve [ intros ?; discriminate
+              | left; reflexivity
+              | unfold wdata_ok; simpl; intuition
+              | intros; simpl; auto ].
+
+  Lemma InvD_worker k s s' l : InvC s -> InvD s -> step_worker c k s = Some (s', l) -> InvD s'.
+  Proof.
+    intros I D H. unfold step_worker in H.
+    destruct (nth_error (ws s) k) as [wk|] eqn:Hk; [|discriminate].
+    pose proof (ic_wf c s I k wk Hk) as Hwf. unfold wf_w in Hwf.
+    pose proof (id_rc s D) as Drc. pose proof (id_w s D k wk Hk) as Dwk.
+    destruct wk as [stt trc tab]; simpl in *.
+    destruct stt as [|pc cur|cur| |].
+    - (* WLoop *)
+      destruct (buf s) as [|b0 r] eqn:Eb.
+      + destruct (closed s) eqn:Ec; [|discriminate]. inversion H; subst; clear H.
+        apply (InvD_wupd s k _ _ (buf s) (store s) (rc s) (ab s) (mutex s) (wg s) (ebuf s) I D Hk); dwfin.
+        intros _ _ _. rewrite Eb. simpl. split; [|split; [|split]]; auto.
+        intros _. destruct (ic_prod c s I) as (Hp & _). auto.
+      + inversion H; subst; clear H.
+        assert (Hb : exists bd, c_body c = bd /\ (bd = bodyA \/ bd = bodyB)) by eauto.
+        destruct Hb as (bd & Ebd & Hbd). rewrite Ebd.
+        apply (InvD_wupd s k _ _ r (store s) (rc s) (ab s) (mutex s) (wg s) (ebuf s) I D Hk); dwfin.
+        * destruct Hbd as [-> | ->]; unfold wdata_ok; simpl; intuition.
+        * intros _ _ _. rewrite Eb.
+          destruct Hbd as [-> | ->]; simpl; (split; [|split; [|split]]);
+            try reflexivity; try (intros ?; discriminate); try (right; discriminate); f_equal; lia.
+    - (* WBody *)
+      destruct pc as [|a pc]; [discriminate|]. destruct Hwf as [Hsuf _].
+      pose proof (ic_cs c s I k _ Hk) as Hcs. pose proof (ic_mid c s I k _ Hk) as Hmid.
+      unfold in_cs, mid_ok, mid_ok_v, in_cs in *; simpl in *.
+      unfold wdata_ok in Dwk; simpl in Dwk.
+      destruct (body_positions _ a pc Hbody Hsuf) as
+        [(-> & f & g & Hfg & ->)|[(-> & f & g & Hfg & ->)|[(-> & f & g & Hfg & ->)|[(f & g & Hfg & -> & ->)|
+         [(f & g & Hfg & -> & ->)|[(g & -> & ->)|[(g & -> & ->)|(-> & ->)]]]]]]]; unfold cs_acts in *.
+      + (* SaveBlk *)
+        destruct f, g; try congruence;
+        (destruct (b_fail cur) eqn:Ef; inversion H; subst; clear H;
+         (apply (InvD_wupd s k _ _ (buf s) _ (rc s) (ab s) (mutex s) (wg s) (ebuf s) I D Hk); dwfin;
+          try (unfold wdata_ok; simpl; rewrite Ef; intuition congruence);
+          try (intros _ _ _; simpl; split; [|split; [|split]]; auto; intros ?; discriminate))).
+      + (* SaveIdx *)
+        destruct f, g; try congruence;
+        (destruct (b_fail cur) eqn:Ef; inversion H; subst; clear H;
+         (apply (InvD_wupd s k _ _ (buf s) _ (rc s) (ab s) (mutex s) (wg s) (ebuf s) I D Hk); dwfin;
+          try (unfold wdata_ok; simpl; rewrite Ef; intuition congruence);
+          try (intros _ _ _; simpl; split; [|split; [|split]]; auto; intros ?; discriminate))).
+      + (* Lock *)
+        destruct (mutex s) eqn:Em; [discriminate|]. inversion H; subst; clear H.
+        destruct f, g; try congruence;
+        (apply (InvD_wupd s k _ _ (buf s) (store s) (rc s) (ab s) (Some k) (wg s) (ebuf s) I D Hk); dwfin;
+         try (intros _ _ _; simpl; split; [|split; [|split]]; auto; intros ?; discriminate)).
+      + (* Read f *)
+        destruct f, g; try congruence; inversion H; subst; clear H;
+        (apply (InvD_wupd s k _ _ (buf s) (store s) (rc s) (ab s) (mutex s) (wg s) (ebuf s) I D Hk); dwfin;
+         try (intros _ _ _; simpl; split; [|split; [|split]]; auto; intros ?; discriminate)).
+      + (* Write f, first *)
+        specialize (Hmid eq_refl).
+        destruct f, g; try congruence; inversion H; subst; clear H.
+        * apply (InvD_wupd s k _ _ (buf s) (store s) _ (ab s) (mutex s) (wg s) (ebuf s) I D Hk); dwfin.
+          -- symmetry. apply wrap32_idem.
+          -- intros _ _ _. simpl. split; [|split; [|split]]; auto; try (intros ?; discriminate).
+             rewrite <- N.add_assoc, wrap32_add_l. f_equal. lia.
+        * destruct Dwk as [Dw1 Dw2].
+          destruct Dw1 as [Hf1 Ho1]; [simpl; intuition discriminate|].
+          destruct Dw2 as [Hf2 Ho2]; [simpl; intuition discriminate|].
+          apply (InvD_wupd s k _ _ (buf s) (store s) (rc s) _ (mutex s) (wg s) (ebuf s) I D Hk); dwfin.
+          -- right. exists cur. split; [reflexivity|]. split; [apply fail_none; auto|auto].
+          -- intros _ _ _. simpl. split; [|split; [|split]]; auto; try (intros ?; discriminate).
+             rewrite <- app_assoc. reflexivity.
+      + (* Read g *)
+        destruct g; inversion H; subst; clear H;
+        (apply (InvD_wupd s k _ _ (buf s) (store s) (rc s) (ab s) (mutex s) (wg s) (ebuf s) I D Hk); dwfin;
+         try (intros _ _ _; simpl; split; [|split; [|split]]; auto; intros ?; discriminate)).
+      + (* Write g, second *)
+        specialize (Hmid eq_refl).
+        destruct g; inversion H; subst; clear H.
+        * apply (InvD_wupd s k _ _ (buf s) (store s) _ (ab s) (mutex s) (wg s) (ebuf s) I D Hk); dwfin.
+          -- symmetry. apply wrap32_idem.
+          -- intros _ _ _. simpl. split; [|split; [|split]]; auto; try (intros ?; discriminate).
+             rewrite <- N.add_assoc, wrap32_add_l. f_equal. lia.
+        * destruct Dwk as [Dw1 Dw2].
+          destruct Dw1 as [Hf1 Ho1]; [simpl; intuition discriminate|].
+          destruct Dw2 as [Hf2 Ho2]; [simpl; intuition discriminate|].
+          apply (InvD_wupd s k _ _ (buf s) (store s) (rc s) _ (mutex s) (wg s) (ebuf s) I D Hk); dwfin.
+          -- right. exists cur. split; [reflexivity|]. split; [apply fail_none; auto|auto].
+          -- intros _ _ _. simpl. split; [|split; [|split]]; auto; try (intros ?; discriminate).
+             rewrite <- app_assoc. reflexivity.
+      + (* Unlock *)
+        rewrite (Hcs eq_refl) in H. inversion H; subst; clear H.
+        apply (InvD_wupd s k _ _ (buf s) (store s) (rc s) (ab s) None (wg s) (ebuf s) I D Hk); dwfin.
+        intros _ _ _; simpl; split; [|split; [|split]]; auto; intros ?; discriminate.
+    - (* WErr *)
+      destruct (eclosed s).
+      + (* panic: excluded by InvC *)
+        inversion H; subst; clear H. destruct D. constructor; simpl; auto.
+      + destruct (List.length (ebuf s) <? c_ecap c); [|discriminate]. inversion H; subst; clear H.
+        apply (InvD_wupd s k _ _ (buf s) (store s) (rc s) (ab s) (mutex s) (wg s) _ I D Hk); dwfin.
+        * right. destruct (ebuf s); discriminate.
+        * intros _. destruct (ebuf s); discriminate.
+        * intros _ E. exfalso. destruct (ebuf s); discriminate.
+    - (* WExit *)
+      destruct (wg s).
+      + inversion H; subst; clear H. destruct D. constructor; simpl; auto.
+      + inversion H; subst; clear H.
+        apply (InvD_wupd s k _ _ (buf s) (store s) (rc s) (ab s) (mutex s) _ (ebuf s) I D Hk); dwfin.
+        intros _ _ He0. simpl. split; [|split; [|split]]; auto.
+        intros _. destruct (id_data s D He0) as (_ & _ & D3 & _). apply (D3 k _ Hk). reflexivity.
+    - discriminate.
+  Qed.
+
+  Theorem InvD_step t s s' l : InvC s -> InvD s -> step c t s = Some (s', l) -> InvD s'.
+  Proof.
+    intros I D H. unfold step in H. rewrite (ic_np c s I) in H.
+    destruct t as [|[|[|k]]].
+    - eapply InvD_main; eauto.
+    - eapply InvD_prod; eauto.
+    - eapply InvD_prod_cancel; eauto.
+    - eapply InvD_worker; eauto.
+  Qed.
+
+  Lemma Inv_execs tr s : execs c (init c items) tr s -> InvC s /\ InvD s.
+  Proof.
+    intros E. eapply (execs_inv c (fun s => InvC s /\ InvD s)); eauto.
+    - intros t s1 s2 l [I D] H. split; [eapply InvC_step|eapply InvD_step]; eauto.
+    - split; [apply InvC_init; auto|apply InvD_init].
   Qed.
 
 End Data.
